@@ -199,6 +199,16 @@ def specLen (code : String) (p v : Nat) : Option Nat :=
   | "zeta" => some (Spec.zetaWrapped .be p v).length
   | _ => (Spec.codeword .be code p v).map List.length
 
+/-- lengths of the published codewords of the three codes with a unary part of unbounded length, in
+    closed form (proved equal to `List.length` of the published codeword in `Props/C20.lean`:
+    `specLenBig_sound`); used as the reference where the codeword is too long to build -/
+def specLenBig (code : String) (p v : Nat) : Option Nat :=
+  match code with
+  | "unary" => some (v + 1)
+  | "rice" => some (v / 2 ^ p + 1 + p)
+  | "golomb" => if p = 0 then none else some (v / p + 1 + (Spec.minimalBinary .be (v % p) p).length)
+  | _ => none
+
 def showPairs (l : List (Nat × Nat)) : String := ",".intercalate (l.map fun (x, y) => s!"{x}:{y}")
 
 /-- run-length encoding of `g start … g (start+count-1)`; stops at the first non-value outcome -/
@@ -239,7 +249,11 @@ def handleLEN1 (args : List String) : String :=
       match lenOutcome code flags p v with
       | none => "bad-request"
       | some (.ok l) =>
-        let r := if l > 2 ^ 20 then "-" else
+        let r := if l > 2 ^ 20 then
+            (match specLenBig code p v with
+             | some x => toString x
+             | none => "-")
+          else
           match specLen code p v with
           | some x => toString x
           | none => "-"
